@@ -38,8 +38,22 @@ class Department:
         return f"Department<{self.name}>"
 
 
+class FalsyItem:
+    """A perfectly legal data object that happens to be falsy (e.g. an empty
+    container-like record)."""
+
+    def __init__(self, name, *, guid):
+        self.name, self.guid = name, guid
+
+    def __bool__(self):
+        return False
+
+    def __repr__(self):
+        return f"FalsyItem<{self.name}>"
+
+
 def _calc_id(tree, data):
-    if isinstance(data, (Person, Department)):
+    if isinstance(data, (Person, Department, FalsyItem)):
         return data.guid
     return hash(data)
 
@@ -53,10 +67,15 @@ def obj_serialize_mapper(node, data):
         data["type"] = "person"
         data["name"] = d.name
         data["age"] = d.age
+    elif isinstance(d, FalsyItem):
+        data["type"] = "falsy"
+        data["name"] = d.name
     return data
 
 
 def obj_deserialize_mapper(parent, data):
+    if data["type"] == "falsy":
+        return FalsyItem(data["name"], guid=data["data_id"])
     if data["type"] == "person":
         return Person(data["name"], age=data["age"], guid=data["data_id"])
     return Department(data["name"], guid=data["data_id"])
@@ -102,7 +121,7 @@ def str_mapper(parent, data):
     return data["str"]
 
 
-PROFILES = ["str", "obj", "dictwrap", "derived", "typed_str", "typed_obj", "typed_derived", "fs"]
+PROFILES = ["str", "obj", "obj_falsy", "dictwrap", "derived", "typed_str", "typed_obj", "typed_derived", "fs"]
 
 
 class Profile:
@@ -117,7 +136,7 @@ class Profile:
         n = self.name
         if n == "str":
             return Tree("T")
-        if n == "obj":
+        if n in ("obj", "obj_falsy"):
             return Tree("T", calc_data_id=_calc_id)
         if n == "dictwrap":
             return Tree("T")
@@ -132,7 +151,7 @@ class Profile:
         return FileSystemTree("T")
 
     def cls(self):
-        return {"str": Tree, "obj": Tree, "dictwrap": Tree, "derived": MyTree, "typed_str": TypedTree,
+        return {"str": Tree, "obj": Tree, "obj_falsy": Tree, "dictwrap": Tree, "derived": MyTree, "typed_str": TypedTree,
                 "typed_obj": TypedTree, "typed_derived": MyTypedTree, "fs": FileSystemTree}[self.name]
 
     def data(self, label):
@@ -141,6 +160,8 @@ class Profile:
         n = self.name
         if n in ("str", "typed_str"):
             d = label
+        elif n == "obj_falsy":
+            d = FalsyItem(label, guid="f-" + label)
         elif n in ("obj", "derived", "typed_obj", "typed_derived"):
             if label in PERSON_LABELS:
                 d = Person(label, age=20 + LABELS.index(label), guid="p-" + label)
@@ -180,7 +201,7 @@ class Profile:
     # -- mappers ----------------------------------------------------------------------
     def save_mapper(self):
         n = self.name
-        if n in ("obj", "typed_obj"):
+        if n in ("obj", "typed_obj", "obj_falsy"):
             return obj_serialize_mapper
         if n == "dictwrap":
             return DictWrapper.serialize_mapper
@@ -188,7 +209,7 @@ class Profile:
 
     def load_mapper(self, tree):
         n = self.name
-        if n in ("obj", "typed_obj"):
+        if n in ("obj", "typed_obj", "obj_falsy"):
             return obj_deserialize_mapper
         if n == "dictwrap":
             return DictWrapper.deserialize_mapper
@@ -206,6 +227,8 @@ class Profile:
             return ["person", d.name, d.age, d.guid]
         if isinstance(d, Department):
             return ["dept", d.name, d.guid]
+        if isinstance(d, FalsyItem):
+            return ["falsy", d.name, d.guid]
         if isinstance(d, DictWrapper):
             return ["dw", dict(d._dict)]
         if isinstance(d, FileSystemEntry):
@@ -235,6 +258,8 @@ class Profile:
             return {"type": "person", "name": d.name, "age": d.age}
         if isinstance(d, Department):
             return {"type": "dept", "name": d.name}
+        if isinstance(d, FalsyItem):
+            return {"type": "falsy", "name": d.name}
         if isinstance(d, DictWrapper):
             return dict(d._dict)
         if isinstance(d, FileSystemEntry):
@@ -250,6 +275,8 @@ class Profile:
             keys.append("kind")
         if n in ("obj", "derived", "typed_obj", "typed_derived"):
             keys += ["type", "name", "age"]
+        if n == "obj_falsy":
+            keys += ["type", "name"]
         if n == "dictwrap":
             keys += ["name", "n"]
         if n == "fs":
@@ -264,7 +291,7 @@ class Profile:
             out.append("str")
         if self.typed:
             out.append("kind")
-        if n in ("obj", "derived", "typed_obj", "typed_derived"):
+        if n in ("obj", "derived", "typed_obj", "typed_derived", "obj_falsy"):
             out += ["type", "name"]
         if n == "dictwrap":
             out += ["name"]
